@@ -1,3 +1,4 @@
+import PcfgVerif.Generated.ProcessState
 import PcfgVerif.Properties.SessionCore
 import PcfgVerif.Generated.WriterLoops
 import PcfgVerif.Lemmas.OmenProbLemmas
@@ -70,5 +71,13 @@ theorem C12_keyspace_file_lists_every_level :
     ∀ (ks : List (Nat × Nat)) (c : Omen.LCtr) (n level : Nat) (p : Rat),
       (level, p) ∈ Omen.omenProbs Omen.ratNOps ks c n → ∃ k, (level, k) ∈ Omen.keyspaceFile ks :=
   ⟨by decide, by decide, Omen.keyspaceFile_perm, fun ks c n level p h => Omen.prob_level_in_keyspaceFile _ ks c n level p h⟩
+
+/-- **nothing outlives a call except the objects a caller holds** (regenerated from the four library packages): no module-level or
+class-level mutable container, no cache decorator or cache call (`functools.lru_cache`, `cache`), no mutable or computed default
+argument and no `global` statement anywhere in `lib_guesser`, `lib_trainer`, `lib_scorer`, `lib_princeling`.  The models of this file are
+functions of the objects handed to the code (grammar, detector, tables, memo table); this is the fact that lets them be: an answer cannot
+depend on what another object, an earlier ruleset in the same process or the other thread did -/
+theorem C12_no_process_wide_state : Generated.ProcessState.processWideState = [] := by
+  decide
 
 end Pcfg.C12
